@@ -524,12 +524,11 @@ def gen_c05(tier, rng):
 PROPS.update({
     "C03": dict(theorems=[], gen=gen_c03, project=proj_recovery, oracle=oracle_c03, nontrivial=lambda s: len(s) > 6,
                 explanation="crash safety", assumptions=OS_ASSUMPTIONS),
-    "C05": dict(theorems=[], gen=gen_c05, project=proj_recovery, oracle=oracle_c05, nontrivial=lambda s: len(s) > 6,
+    "C05": dict(theorems=['c05_open_no_panic_partial', 'c05_open_no_panic_partial', 'c05_fsSmall_of_all', 'c05_reuse_has_last', 'c05_open_panics_on_max_index', 'c05_headless_newest_is_recreated', 'c05_headless_only_file'], gen=gen_c05, project=proj_recovery, oracle=oracle_c05, nontrivial=lambda s: len(s) > 6,
                 explanation="crash recoverability", assumptions=OS_ASSUMPTIONS),
-    "C10": dict(theorems=[], gen=scripts_c10, project=proj_recovery, oracle=oracle_c10, nontrivial=lambda s: len(s) > 6,
+    "C10": dict(theorems=['c10_encRecord_length_pos', 'parse_encAll', 'parse_cut', 'parse_cut_at', 'parse_zero_tail', 'c10_crc32_zeros_ne_zero', 'c10_clean_open', 'c10_cut_truncate', 'c10_zero_truncate', 'c10_open_truncates_and_creates', 'c10_open_single_chunk', 'c10_open_single_chunk'], gen=scripts_c10, project=proj_recovery, oracle=oracle_c10, nontrivial=lambda s: len(s) > 6,
                 explanation="torn / zero tail", assumptions=OS_ASSUMPTIONS),
-    "C09": dict(theorems=["c09_crcBit_bijective", "c09_crcByte_injective", "c09_crc32_single_byte",
-                          "c09_body_byte_detected", "c09_body_byte_decode_rejected", "c09_sum_bytes_detected"],
+    "C09": dict(theorems=['c09_checksum_mismatch_invalid', 'c09_invalid_reported', 'c09_wrong_sum_is_invalid', 'c09_wrong_sum_chunk', 'c09_chunk_byte_altered', 'c09_chunk_byte_altered_not_original', 'c09_missing_middle_chunk', 'c09_missing_middle_chunk_two', 'c09_open_gap'],
                 gen=scripts_c09, project=proj_recovery, oracle=oracle_c09, nontrivial=lambda s: len(s) > 6,
                 explanation="corruption detection", assumptions=OS_ASSUMPTIONS),
 })
